@@ -530,6 +530,13 @@ func (e *Exec) doCall(common *ssa.CallCommon, fnv Val, recv *Val, args []Val, st
 		// effects
 		csc.results = rets
 		e.applyModifies(con, csc, st)
+		for _, gs := range con.GhostSets {
+			csc.where = "ghost-set " + gs.Name
+			csc.evalIdent(gs.Name)
+			idx := csc.rvalue(csc.eval(gs.Idx))
+			val := csc.rvalue(csc.eval(gs.Val.E))
+			st.heap = c.hstore(st.heap, "G:"+gs.Name, idx.T, val.T)
+		}
 		// postconditions
 		psc := &Scope{e: e, c: c, cur: st.heap, old: pre, params: binder, names: map[string]Val{}, pkg: pkg, tracks: map[string]*trackInfo{}, results: rets}
 		if sig != nil {
@@ -617,6 +624,11 @@ func (e *Exec) havocAll(st *State) {
 
 func (e *Exec) isZapPrivateComp(n string) bool {
 	if strings.HasPrefix(n, "T:") || n == "$clk" || strings.HasPrefix(n, "G:") || n == "$held" || n == "$closed" {
+		return true
+	}
+	if n == "E:uint8" {
+		// byte arrays: user code reaches zap's buffers only through zap's methods and does not
+		// modify byte slices handed to it (io.Writer's contract) - encapsulation rely
 		return true
 	}
 	if strings.HasPrefix(n, "H:") || strings.HasPrefix(n, "E:") || strings.HasPrefix(n, "C:") {
@@ -924,6 +936,9 @@ func (e *Exec) callModifies(common *ssa.CallCommon, comps map[string]bool) bool 
 		return true
 	}
 	comps["$alloc"] = true
+	for _, gs := range ci.con.GhostSets {
+		comps["G:"+gs.Name] = true
+	}
 	// typed dummy binder
 	binder := map[string]Val{}
 	var ptypes []types.Type
@@ -1010,6 +1025,11 @@ func (e *Exec) checkFrame(st *State, pos token.Pos) {
 				}
 			}
 		}
+	}
+	for _, gs := range e.con.GhostSets {
+		sc.where = "ghost-set " + gs.Name
+		idx := sc.rvalue(sc.eval(gs.Idx))
+		allowedAt["G:"+gs.Name] = append(allowedAt["G:"+gs.Name], idx.T)
 	}
 	var names []string
 	for n := range c.compSort {
